@@ -7,6 +7,9 @@ pub enum Sel {
     Const(&'static str),
     /// `struct Name { … }`
     Struct(&'static str),
+    /// struct VIEW: only the listed fields are translated (the generated structure has exactly these);
+    /// a selected method that touches any other field is a TRANSLATE-ERROR
+    StructView(&'static str, &'static [&'static str]),
     /// `enum Name { … }`
     Enum(&'static str),
     /// free `fn name`
@@ -55,7 +58,23 @@ pub const MANIFEST: &[(&str, &[Sel])] = &[
             Sel::Fn("decode_prefix"),
         ],
     ),
+    (
+        "renetcode/src/server.rs",
+        &[
+            Sel::Struct("ConnectTokenEntry"),
+            Sel::StructView("NetcodeServer", &["connect_token_entries"]),
+            Sel::Method("NetcodeServer", "find_or_add_connect_token_entry"),
+        ],
+    ),
     ("renet/src/error.rs", &[Sel::Enum("ChannelError")]),
+    (
+        "renet/src/remote_connection.rs",
+        &[
+            Sel::StructView("RenetClient", &["pending_acks"]),
+            Sel::Method("RenetClient", "add_pending_ack"),
+            Sel::Method("RenetClient", "acked_largest"),
+        ],
+    ),
     (
         "renet/src/channel/slice_constructor.rs",
         &[
@@ -66,6 +85,16 @@ pub const MANIFEST: &[(&str, &[Sel])] = &[
     ),
 ];
 
+/// Fuel of `while` loops: (file, fn as `Type::name` or `name`, one Rust expression per `while` in source
+/// order).  The expression is evaluated at loop entry; the emitted loop runs its body at most that many
+/// times (the last run is the one whose condition fails) and otherwise panics at the distinguished site
+/// `"<file>:<fn>: fuel exhausted"` — the equivalence proofs show that this site is never reached.
+pub const WHILE_FUEL: &[(&str, &str, &[&str])] = &[(
+    "renet/src/remote_connection.rs",
+    "RenetClient::acked_largest",
+    &["self.pending_acks.len() + 1"],
+)];
+
 /// External types that are not translated but mapped to an opaque RustSem type
 /// (last path segments, Lean name).
-pub const OPAQUE_TYPES: &[(&[&str], &str)] = &[(&["io", "Error"], "RustSem.IoError")];
+pub const OPAQUE_TYPES: &[(&[&str], &str)] = &[(&["io", "Error"], "RustSem.IoError"), (&["SocketAddr"], "RustSem.SocketAddr")];
